@@ -2,7 +2,7 @@
    steps it emitted are replayed through the model (agreement), and the property predicates are evaluated
    on the observed documents against the flat-token picture. *)
 From Coq Require Import ZArith NArith List Bool Arith.
-From PM Require Export Model.Data Model.Mark Model.Tree Model.Resolve Spec.Tokens Model.Step Model.StructOps Model.Fitter Model.RangeOps Corr.Common Corr.Tree Corr.Steps.
+From PM Require Export Model.Data Model.Mark Model.Tree Model.Resolve Spec.Tokens Model.Step Model.StructOps Model.DropPoint Model.Fitter Model.RangeOps Corr.Common Corr.Tree Corr.Steps.
 Import ListNotations.
 Local Open Scope nat_scope.
 
@@ -22,7 +22,9 @@ Inductive squery :=
 (* Transform.delete_range(from, to): the step it records (None: no step) *)
 | QDeleteRange (from to : nat)
 (* Transform.replace_range(from, to, slice): the step it records *)
-| QReplaceRange (from to : nat) (sl : slice).
+| QReplaceRange (from to : nat) (sl : slice)
+(* structure.drop_point(doc, pos, slice) *)
+| QDropPoint (pos : nat) (sl : slice).
 
 Inductive sanswer :=
 | ABool (b : bool)
@@ -76,6 +78,7 @@ Definition model_answer (s : schema) (doc : node) (q : squery) : sanswer :=
   | QReplaceStep from to sl => of_res AOptStep (replace_step s doc from to sl)
   | QDeleteRange from to => run_planned s doc (delete_range_step s doc from to)
   | QReplaceRange from to sl => of_res AOptStep (replace_range_step s doc from to sl)
+  | QDropPoint pos sl => of_res AOptNat (drop_point s doc pos sl)
   end.
 
 Inductive opcase :=
